@@ -197,6 +197,8 @@ def components(tier, disabled):
     return {
         "literal": {"strategy": semantic_program(profile="direct", disabled=lit_off, max_stmts=(12 if q else 18), xflag=True),
                     "check": check_literal, "examples": 1600 if q else 60000, "sample": lambda c, i: RCFG(c).text},
+        "loopcalls": {"strategy": semantic_program(profile="modelled", disabled=disabled, max_stmts=(10 if q else 16), loop_bias=True),
+                      "check": check, "examples": 500 if q else 30000, "sample": lambda c, i: RCFG(c).text},
         "lsig": {"strategy": semantic_program(profile="modelled", disabled=disabled, max_stmts=(12 if q else 18), mode="lsig"),
                  "check": check, "examples": 1600 if q else 70000, "sample": lambda c, i: RCFG(c).text},
         "app": {"strategy": semantic_program(profile="modelled", disabled=disabled, max_stmts=(12 if q else 18), mode="app"),
